@@ -61,6 +61,7 @@ type c15Env struct {
 	c       *Case
 	scratch string
 	root    string
+	rr      string // the root as reached by the current invocation: root, or a path through a symbolic link
 	outer   string // root of the enclosing outer clone ("" unless the layout is nested)
 	p       *c15Project
 	idx     map[string]int // root-relative path -> file index
@@ -69,12 +70,64 @@ type c15Env struct {
 func c15Setup(c *Case, p *c15Project) *c15Env {
 	e := &c15Env{c: c, scratch: mkScratch("c15"), p: p, idx: map[string]int{}}
 	e.root = filepath.Join(e.scratch, filepath.FromSlash(p.relRoot()))
+	e.rr = e.root
+	must := func(err error) {
+		if err != nil {
+			fmt.Fprintf(os.Stderr, "scratch setup failed: %v\n", err)
+			os.Exit(10)
+		}
+	}
+	// symbolic links to directories inside the repository come first, files are written through them
+	switch p.DirLink {
+	case 1:
+		store := filepath.Join(e.scratch, "store-github")
+		must(os.MkdirAll(store, 0o755))
+		must(os.MkdirAll(e.root, 0o755))
+		target := store
+		if c.R.Bool() {
+			target, _ = filepath.Rel(e.root, store)
+		}
+		must(os.Symlink(target, filepath.Join(e.root, ".github")))
+	case 2:
+		store := filepath.Join(e.scratch, "store-workflows")
+		must(os.MkdirAll(store, 0o755))
+		must(os.MkdirAll(filepath.Join(e.root, ".github"), 0o755))
+		target := store
+		if c.R.Bool() {
+			target, _ = filepath.Rel(filepath.Join(e.root, ".github"), store)
+		}
+		must(os.Symlink(target, filepath.Join(e.root, ".github", "workflows")))
+	}
 	files := map[string]string{}
 	for i, f := range p.Files {
-		files[f.Rel] = f.Src
 		e.idx[f.Rel] = i
+		if f.LinkTo == "" {
+			files[f.Rel] = f.Src
+		}
 	}
 	writeFiles(e.root, files)
+	for _, f := range p.Files {
+		if f.LinkTo == "" {
+			continue
+		}
+		link := filepath.Join(e.root, filepath.FromSlash(f.Rel))
+		must(os.MkdirAll(filepath.Dir(link), 0o755))
+		var target string
+		if strings.HasPrefix(f.LinkTo, "@outside/") {
+			target = filepath.Join(e.scratch, "store-files", strings.TrimPrefix(f.LinkTo, "@outside/"))
+			writeFiles(filepath.Dir(target), map[string]string{filepath.Base(target): f.Src})
+		} else {
+			target = filepath.Join(e.root, filepath.FromSlash(f.LinkTo))
+			if p.DirLink == 0 && c.R.Bool() {
+				target, _ = filepath.Rel(filepath.Dir(link), target)
+			}
+		}
+		must(os.Symlink(target, link))
+	}
+	// the repository reached through symbolic links to its root and to its parent directory
+	must(os.Symlink(filepath.FromSlash(p.relRoot()), filepath.Join(e.scratch, "lnk-repo")))
+	must(os.Symlink(filepath.Dir(e.root), filepath.Join(e.scratch, "lnk-parent")))
+	writeFiles(e.scratch, map[string]string{"other/dir/outside.yml": "on: push\njobs: {}\n"})
 	dirs := []string{filepath.Join(e.root, "src", "pkg"), filepath.Join(e.scratch, "other", "dir"), filepath.Join(e.scratch, "cfg")}
 	switch p.Layout {
 	case 0, 3:
@@ -115,26 +168,52 @@ func (e *c15Env) anon(s string) string {
 func (e *c15Env) cwd(kind int) string {
 	switch kind {
 	case c15CwdParent:
-		return filepath.Dir(e.root)
+		return filepath.Dir(e.rr)
 	case c15CwdOuterRoot:
 		return e.outer
 	case c15CwdNested:
-		return filepath.Join(e.root, "src", "pkg")
+		return filepath.Join(e.rr, "src", "pkg")
 	case c15CwdWorkflows:
-		return filepath.Join(e.root, ".github", "workflows")
+		return filepath.Join(e.rr, ".github", "workflows")
 	case c15CwdUnrelated:
 		return filepath.Join(e.scratch, "other", "dir")
 	case c15CwdDotGithub:
-		return filepath.Join(e.root, ".github")
+		return filepath.Join(e.rr, ".github")
 	}
-	return e.root
+	return e.rr
+}
+
+// setReach selects how the repository is reached by the following cwd() / spell() calls.
+func (e *c15Env) setReach(reach int) {
+	switch reach {
+	case 1:
+		e.rr = filepath.Join(e.scratch, "lnk-repo")
+	case 2:
+		e.rr = filepath.Join(e.scratch, "lnk-parent", e.p.Name)
+	default:
+		e.rr = e.root
+	}
+}
+
+// throughSymlink tells whether a directory is spelled through a symbolic link. The kernel resolves
+// ".." in a relative path physically, the linter lexically; spellings with ".." are therefore not
+// used from such a directory (the statement is about spellings of the same file).
+func c15ThroughSymlink(dir string) bool {
+	r, err := filepath.EvalSymlinks(dir)
+	return err != nil || r != dir
 }
 
 // spell returns how file i is written on the command line from cwd.
 func (e *c15Env) spell(cwd string, sp int, i int) string {
-	abs := filepath.Join(e.root, filepath.FromSlash(e.p.Files[i].Rel))
+	return e.spellPath(cwd, sp, filepath.Join(e.rr, filepath.FromSlash(e.p.Files[i].Rel)))
+}
+
+func (e *c15Env) spellPath(cwd string, sp int, abs string) string {
 	rel, err := filepath.Rel(cwd, abs)
 	if err != nil {
+		return abs
+	}
+	if c15ThroughSymlink(cwd) && (sp == c15SpUnclean || strings.Contains(rel, "..")) {
 		return abs
 	}
 	switch sp {
@@ -185,7 +264,7 @@ func (e *c15Env) setConfig(content string, mode int, cwd string, relCfgArg bool)
 	if mode == 2 {
 		arg := ext
 		if relCfgArg {
-			if r, err := filepath.Rel(cwd, ext); err == nil {
+			if r, err := filepath.Rel(cwd, ext); err == nil && !c15ThroughSymlink(cwd) {
 				arg = r
 			}
 		}
@@ -194,12 +273,12 @@ func (e *c15Env) setConfig(content string, mode int, cwd string, relCfgArg bool)
 	return nil
 }
 
-func (e *c15Env) exec(cwd string, args []string) CLIResult {
-	return runCLI(false, cwd, nil, []string{"PWD=" + cwd}, args...)
+func (e *c15Env) exec(cwd string, stdin []byte, args []string) CLIResult {
+	return runCLI(false, cwd, stdin, []string{"PWD=" + cwd}, args...)
 }
 
 // parse turns stdout into diagnostics with root-relative paths. ok=false: output not understood.
-func (e *c15Env) parse(cwd string, format int, stdout string) ([]c15Diag, string) {
+func (e *c15Env) parse(cwd string, format int, stdout string, stdinName string, stdinFile int) ([]c15Diag, string) {
 	var raw []c15JSONDiag
 	if format == 0 {
 		s := strings.TrimSpace(stdout)
@@ -225,11 +304,28 @@ func (e *c15Env) parse(cwd string, format int, stdout string) ([]c15Diag, string
 	}
 	out := make([]c15Diag, 0, len(raw))
 	for _, d := range raw {
+		if stdinName != "" {
+			// input from stdin: the file name is the given one, verbatim
+			if d.Filepath != stdinName {
+				return nil, fmt.Sprintf("input from stdin named %q but the diagnostic is printed for %q", stdinName, d.Filepath)
+			}
+			out = append(out, c15Diag{e.p.Files[stdinFile].Rel, d.Line, d.Column, d.Message, d.Kind})
+			continue
+		}
 		p := d.Filepath
 		if !filepath.IsAbs(p) {
 			p = filepath.Join(cwd, p)
 		}
-		rel, err := filepath.Rel(e.root, filepath.Clean(p))
+		p = filepath.Clean(p)
+		// the repository may have been reached through a symbolic link: same file, other spelling
+		base := e.root
+		for _, alias := range []string{e.rr, e.root} {
+			if p == alias || strings.HasPrefix(p, alias+string(filepath.Separator)) {
+				base = alias
+				break
+			}
+		}
+		rel, err := filepath.Rel(base, p)
 		if err != nil {
 			return nil, "printed path cannot be resolved: " + d.Filepath
 		}
@@ -258,7 +354,7 @@ func c15Compile(f *c15Filter) *c15Compiled {
 	}
 	for _, en := range f.Entries {
 		var rs []*regexp.Regexp
-		if en.Form == 0 {
+		if en.Form == 0 || en.Form == 4 {
 			for _, p := range en.Pats {
 				rs = append(rs, regexp.MustCompile(p))
 			}
@@ -333,7 +429,11 @@ func c15IsSubseq(sub, full []c15Diag) bool {
 // c15Run performs one invocation and applies the oracle. base[i] = unfiltered diagnostics of file i.
 func (e *c15Env) run(tag string, f *c15Filter, cf *c15Compiled, inv c15Inv, base [][]c15Diag, cfgContent string, relCfgArg bool) {
 	c := e.c
+	e.setReach(inv.Reach)
+	defer e.setReach(0)
 	cwd := e.cwd(inv.Cwd)
+	var stdin []byte
+	stdinName := ""
 	args := []string{"-shellcheck=", "-pyflakes=", "-no-color"}
 	if inv.Format == 0 {
 		args = append(args, "-format", "{{json .}}")
@@ -350,11 +450,36 @@ func (e *c15Env) run(tag string, f *c15Filter, cf *c15Compiled, inv c15Inv, base
 	}
 	order := inv.Files
 	printed := map[int]string{}
-	if inv.Sp == c15SpNoArgs {
+	globPath := func(i int) string { return e.p.Files[i].Rel } // the reference path for `paths` globs
+	repoKnown := true                                          // a repository (and its configuration) applies
+	if inv.Stdin > 0 {
+		fi := inv.Files[0]
+		stdin = []byte(e.p.Files[fi].Src)
+		stdinName = "<stdin>"
+		switch inv.Stdin {
+		case 1:
+			stdinName = e.spell(cwd, inv.Sp, inv.StdinName)
+			nm := inv.StdinName
+			globPath = func(int) string { return e.p.Files[nm].Rel }
+		case 2:
+			stdinName = e.spellPath(cwd, inv.Sp, filepath.Join(e.scratch, "other", "dir", "outside.yml"))
+			repoKnown = false
+		case 3:
+			stdinName = e.spellPath(cwd, inv.Sp, filepath.Join(e.rr, ".github", "workflows", "does-not-exist.yml"))
+			repoKnown = false
+		default:
+			repoKnown = false
+		}
+		if inv.Stdin != 4 {
+			args = append(args, "-stdin-filename", stdinName)
+		}
+		args = append(args, "-")
+		printed[fi] = stdinName
+	} else if inv.Sp == c15SpNoArgs {
 		order = make([]int, len(e.p.Files))
 		for i := range order {
 			order[i] = i
-			printed[i] = c15PrintedPath(cwd, filepath.Join(e.root, filepath.FromSlash(e.p.Files[i].Rel)))
+			printed[i] = c15PrintedPath(cwd, filepath.Join(e.rr, filepath.FromSlash(e.p.Files[i].Rel)))
 		}
 	} else {
 		for k, fi := range inv.Files {
@@ -367,16 +492,23 @@ func (e *c15Env) run(tag string, f *c15Filter, cf *c15Compiled, inv c15Inv, base
 			args = append(args, a)
 		}
 	}
-	res := e.exec(cwd, args)
+	res := e.exec(cwd, stdin, args)
 	c.Eval(1)
 	c.Count("cli_runs", 1)
 	c.SetAdd("cwd_x_spelling", c15CwdNames[inv.Cwd]+"/"+c15SpNames[inv.Sp])
 
-	rootRel := func(i int) string { return e.p.Files[i].Rel }
+	rootRel := globPath
+	fGiven := f
+	if !repoKnown {
+		// no repository for the input: its configuration file is there but must not apply
+		f = &c15Filter{Kind: f.Kind, CLI: f.CLI, CfgMode: f.CfgMode}
+		cf = c15Compile(f)
+	}
 	want, all, reason := cf.expected(base, order, rootRel)
 	alt, _, _ := cf.expected(base, order, func(i int) string { return filepath.ToSlash(printed[i]) })
 	// further models, for coverage counters and for naming a disagreement only
-	var altJoinedCfg, altJoinedCLI, altNoRepo, altOuter []c15Diag
+	var altJoinedCfg, altJoinedCLI, altNoRepo, altOuter, altAliasName []c15Diag
+	hasAlias := false
 	joinedCfgOK, joinedCLIOK := true, true
 	{
 		j := &c15Compiled{cli: cf.cli, globs: cf.globs}
@@ -403,6 +535,29 @@ func (e *c15Env) run(tag string, f *c15Filter, cf *c15Compiled, inv c15Inv, base
 			}
 		}
 		altJoinedCLI, _, _ = j2.expected(base, order, rootRel)
+		// aliased elements compiled as their anchor names
+		ja := &c15Compiled{cli: cf.cli, globs: cf.globs}
+		for k, en := range f.Entries {
+			rs := cf.entries[k]
+			names := en.AliasNames
+			if en.Form == 4 {
+				names = f.Entries[en.SeqOf].AliasNames // an alias of a list that has aliased elements
+			}
+			if names != nil && (en.Form == 0 || en.Form == 4) {
+				rs = nil
+				for i, pat := range en.Pats {
+					if names[i] != "" {
+						pat = names[i]
+					}
+					if r, err := regexp.Compile(pat); err == nil {
+						rs = append(rs, r)
+					}
+				}
+				hasAlias = true
+			}
+			ja.entries = append(ja.entries, rs)
+		}
+		altAliasName, _, _ = ja.expected(base, order, rootRel)
 		// the repository is not recognised at all: no configuration (only meaningful when the
 		// configuration lives in the repository, not with -config-file)
 		altNoRepo, _, _ = (&c15Compiled{cli: cf.cli}).expected(base, order, rootRel)
@@ -413,6 +568,8 @@ func (e *c15Env) run(tag string, f *c15Filter, cf *c15Compiled, inv c15Inv, base
 	}
 	layout := c15LayoutNames[e.p.Layout]
 	c.SetAdd("layout_x_cwd", layout+"/"+c15CwdNames[inv.Cwd])
+	reachName := []string{"direct", "symlink-to-repository-root", "symlink-to-parent-of-repository-root"}[inv.Reach]
+	stdinMode := []string{"", "stdin-filename-in-repository", "stdin-filename-outside-any-repository", "stdin-filename-of-missing-file", "stdin-without-filename"}[inv.Stdin]
 	if inv.Sp == c15SpNoArgs {
 		c.SetAdd("layouts_with_no_argument_runs", layout)
 	}
@@ -429,7 +586,12 @@ func (e *c15Env) run(tag string, f *c15Filter, cf *c15Compiled, inv c15Inv, base
 		}
 		return map[string]interface{}{
 			"repository_dir": "<scratch>/" + e.p.relRoot(), "layout": layout, "outer_clone_config": e.p.OuterCfg, "files": files, "config_content": cfgContent, "config_mode": []string{".github/actionlint.yaml", ".github/actionlint.yml", "-config-file <scratch>/cfg/custom-config.yaml"}[f.CfgMode],
-			"cwd": "<scratch>/" + cwdRel, "args": argsShown, "filter": f,
+			"cwd": "<scratch>/" + cwdRel, "args": argsShown, "filter": fGiven, "reached_through": reachName, "stdin_mode": stdinMode, "stdin_is_content_of": func() string {
+				if inv.Stdin > 0 {
+					return e.p.Files[inv.Files[0]].Rel
+				}
+				return ""
+			}(), "symbolic_links": e.linkNotes(),
 			"unfiltered": c15DiagStrings(all), "expected": c15DiagStrings(want), "observed": c15DiagStrings(got),
 			"exit": res.Exit, "stderr": truncate(e.anon(res.Stderr), 2000),
 		}
@@ -444,7 +606,12 @@ func (e *c15Env) run(tag string, f *c15Filter, cf *c15Compiled, inv c15Inv, base
 		c.Violation("C15:unexpected-fatal-or-crash", fmt.Sprintf("valid invocation from cwd %s (%s paths) ended with exit status %d %s: %s", c15CwdNames[inv.Cwd], c15SpNames[inv.Sp], res.Exit, res.Signal, truncate(res.Stderr, 300)), detail(nil))
 		return
 	}
-	got, perr := e.parse(cwd, inv.Format, res.Stdout)
+	sn := ""
+	sf := 0
+	if inv.Stdin > 0 {
+		sn, sf = stdinName, inv.Files[0]
+	}
+	got, perr := e.parse(cwd, inv.Format, res.Stdout, sn, sf)
 	if perr != "" {
 		d := detail(nil)
 		d["stdout"] = truncate(res.Stdout, 4000)
@@ -492,6 +659,43 @@ func (e *c15Env) run(tag string, f *c15Filter, cf *c15Compiled, inv c15Inv, base
 		c.Count("runs_discriminating_cli_patterns_one_by_one_vs_joined", 1)
 	}
 	inRepoCfg := f.CfgMode != 2
+	cfgDecides := !c15Equal(want, altNoRepo) // the result depends on the `paths` configuration
+	if cfgDecides {
+		c.Count("runs_config_decides_reach_"+reachName, 1)
+		if inv.Reach != 0 && strings.HasPrefix(cwd, e.rr) {
+			c.Count("runs_config_decides_cwd_inside_symlinked_repository", 1)
+		}
+		if c15ThroughSymlink(cwd) && inv.Reach == 0 {
+			c.Count("runs_config_decides_cwd_inside_symlinked_dot_github_or_workflows", 1)
+		}
+		if inv.Stdin == 1 {
+			c.Count("runs_config_decides_"+stdinMode, 1)
+		}
+		if inv.Stdin == 0 {
+			c.Count(fmt.Sprintf("runs_config_decides_dirlink_%d", e.p.DirLink), 1)
+			for _, fi := range order {
+				if e.p.Files[fi].LinkTo != "" {
+					c.Count("runs_config_decides_with_symlinked_workflow_file", 1)
+					break
+				}
+			}
+		}
+	}
+	if inv.Stdin > 0 {
+		c.Count("runs_"+stdinMode, 1)
+		if inv.Stdin > 1 && len(fGiven.Entries) > 0 && len(all) > 0 {
+			c.Count("runs_stdin_without_repository_but_repository_config_present", 1)
+		}
+	}
+	if hasAlias && !c15Equal(want, altAliasName) {
+		c.Count("runs_discriminating_alias_element_value_vs_anchor_name", 1)
+	}
+	for _, en := range f.Entries {
+		if en.Form == 4 && cfgDecides {
+			c.Count("runs_config_decides_with_aliased_ignore_list", 1)
+			break
+		}
+	}
 	if e.p.Layout != 0 && inRepoCfg && (!c15Equal(want, altNoRepo) || inv.Sp == c15SpNoArgs) {
 		c.Count("runs_discriminating_repository_recognised_"+layout, 1)
 	}
@@ -510,6 +714,15 @@ func (e *c15Env) run(tag string, f *c15Filter, cf *c15Compiled, inv c15Inv, base
 	if !c15Equal(got, want) {
 		sig, what := "", ""
 		switch {
+		case hasAlias && c15Equal(got, altAliasName):
+			sig = "C15:ignore-alias-element-compiled-as-anchor-name"
+			what = "an element of an `ignore` list written as a YAML alias (*name) is compiled from the anchor NAME instead of the aliased pattern: the output equals the filter with the names as patterns"
+		case inv.Stdin == 1 && c15Equal(got, altNoRepo):
+			sig = "C15:stdin-filename-in-repository-config-not-applied"
+			what = "input from stdin with -stdin-filename naming an existing file of the repository: the output equals what one gets when the repository's configuration is not applied"
+		case inv.Reach != 0 && c15Equal(got, altNoRepo):
+			sig = "C15:paths-config-not-applied-when-repository-reached-through-" + reachName
+			what = "the files are spelled through a symbolic link (" + reachName + "): the output equals what one gets when no `paths` entry applies"
 		case len(cf.globs) >= 2 && !c15Equal(got, altNoRepo) && c15EntryModel(cf, base, order, rootRel, got, false) >= 0:
 			// one glob out of several did not take effect: more specific than any model below
 			k := c15EntryModel(cf, base, order, rootRel, got, false)
@@ -597,7 +810,7 @@ func (e *c15Env) baseline() ([][]c15Diag, bool) {
 	for _, f := range e.p.Files {
 		args = append(args, filepath.FromSlash(f.Rel))
 	}
-	res := e.exec(e.root, args)
+	res := e.exec(e.root, nil, args)
 	c.Eval(1)
 	c.Count("baseline_runs", 1)
 	det := map[string]interface{}{"project": e.p, "args": args, "exit": res.Exit, "stdout": truncate(res.Stdout, 4000), "stderr": truncate(res.Stderr, 2000)}
@@ -605,7 +818,7 @@ func (e *c15Env) baseline() ([][]c15Diag, bool) {
 		c.Violation("C15:unexpected-fatal-or-crash", fmt.Sprintf("baseline run ended with exit status %d: %s", res.Exit, truncate(res.Stderr, 300)), det)
 		return nil, false
 	}
-	ds, perr := e.parse(e.root, 0, res.Stdout)
+	ds, perr := e.parse(e.root, 0, res.Stdout, "", 0)
 	if perr != "" {
 		c.Violation("C15:output-not-understood", "baseline: "+perr, det)
 		return nil, false
@@ -708,6 +921,23 @@ func c15CountDecisive(c *Case, p *c15Project, f *c15Filter, cf *c15Compiled, bas
 	}
 }
 
+// linkNotes describes the symbolic links of the scratch layout for a replay file.
+func (e *c15Env) linkNotes() []string {
+	out := []string{"<scratch>/lnk-repo -> " + e.p.relRoot(), "<scratch>/lnk-parent -> parent directory of the repository"}
+	switch e.p.DirLink {
+	case 1:
+		out = append(out, "<repository>/.github -> <scratch>/store-github")
+	case 2:
+		out = append(out, "<repository>/.github/workflows -> <scratch>/store-workflows")
+	}
+	for _, f := range e.p.Files {
+		if f.LinkTo != "" {
+			out = append(out, "<repository>/"+f.Rel+" -> "+f.LinkTo)
+		}
+	}
+	return out
+}
+
 func c15Case(c *Case) {
 	p := c15GenProject(c.R)
 	e := c15Setup(c, p)
@@ -798,8 +1028,32 @@ func c15Case(c *Case) {
 				chosen = append(chosen, pairs[k])
 			}
 		}
+		neutralBase := !strings.Contains(p.BaseCfg, "c15-selfhosted")
 		for k, pr := range chosen {
 			inv := c15Inv{Cwd: pr[0], Sp: pr[1]}
+			if k > 0 && inv.Cwd != c15CwdOuterRoot && c.R.Chance(1, 5) {
+				inv.Reach = c.R.Range(1, 2)
+			}
+			if inv.Sp == c15SpNoArgs && p.DirLink == 2 {
+				// a symbolic link as .github/workflows is not descended into by the directory walk of
+				// a run without arguments ("no YAML file was found"): outside the statement, reported
+				inv.Sp = c15SpAbs
+				c.Count("no_argument_runs_replaced_symlinked_workflows_dir", 1)
+			}
+			if k > 0 && inv.Sp != c15SpNoArgs && c.R.Chance(1, 7) {
+				inv.Stdin = 1
+				if neutralBase && (f.CfgMode != 2 || len(f.Entries) == 0) && c.R.Chance(2, 5) {
+					inv.Stdin = c.R.Range(2, 4)
+				}
+				inv.StdinName = c.R.Intn(len(p.Files))
+				inv.Files = []int{inv.StdinName}
+				if c.R.Chance(1, 3) {
+					inv.Files = []int{c.R.Intn(len(p.Files))} // the content of one file under the name of another
+				}
+				c.Count("stdin_runs", 1)
+				e.run(fmt.Sprintf("%d.%d", fs, k), f, cf, inv, base, cfg, c.R.Bool())
+				continue
+			}
 			if !multiline && c.R.Chance(1, 4) {
 				inv.Format = 1
 			}
@@ -841,6 +1095,8 @@ var c15BadConfigs = []struct{ class, content string }{
 	{"paths-not-a-mapping", "paths:\n  - a\n  - b\n"},
 	{"ignore-not-a-sequence", "paths:\n  '**':\n    ignore: foo\n"},
 	{"ignore-not-a-sequence", "paths:\n  '**/*.yml':\n    ignore:\n      a: b\n"},
+	{"ignore-element-not-a-string", "paths:\n  '**':\n    ignore:\n      - [a, b]\n"},
+	{"ignore-element-not-a-string", "paths:\n  '**/*.yml':\n    ignore:\n      - 'fine'\n      - {a: b}\n"},
 	{"duplicate-glob-key", "paths:\n  '**':\n    ignore: []\n  '**':\n    ignore: []\n"},
 }
 
@@ -947,7 +1203,7 @@ func c15FatalCase(c *Case) {
 		}
 		args = append(args, e.setConfig(cfg, cfgMode, cwd, r.Bool())...)
 		args = append(args, fileArgs...)
-		res := e.exec(cwd, args)
+		res := e.exec(cwd, nil, args)
 		c.Eval(1)
 		c.Count("fatal_runs", 1)
 		c.SetAdd("fatal_classes", class)
@@ -972,7 +1228,7 @@ func c15FatalCase(c *Case) {
 }
 
 func runC15(r *Run) {
-	r.Rule = "scratch repositories (.git marker, 2-7 workflows in .github/workflows and nested sub-directories carrying diagnostics of ~15 kinds with random identifiers, optional base config) linted by the real CLI binary in child processes; per repository one unfiltered baseline and 6 filter sets (none / -ignore / `paths` ignore / both / everything filtered / random) x 8 (cwd, spelling) pairs out of {root, parent, nested, .github/workflows, .github, unrelated} x {relative, ./, absolute, unclean relative, no arguments}, all files / one file / permuted subset, JSON or -oneline output; expected = baseline minus messages matched by Go regexp under globs matched by doublestar against the root-relative path. Patterns: derived from the observed messages (word, quoted token, anchored prefix/suffix/full, alternation, case-insensitive) and static ones matching nothing / everything / kind names / path-like text. Lists of interacting patterns (inline flags (?i) (?s) (?U) (?m) in a non-last pattern followed by a pattern matching only under that flag, (?i:...) groups, (?-i), anchors in every pattern, alternations and empty alternatives inside a pattern, empty patterns, equal group names) in -ignore and in config ignore lists; the reference compiles each pattern alone. Repository layouts: .git directory; .git regular FILE (linked worktree); .git file (submodule) or .git directory nested in vendor/ of an outer ordinary clone that has its own different (sometimes broken) configuration, additionally linted from the outer root; the repository of a file is the nearest ancestor with .github/workflows and a .git entry. `paths` globs cover the doublestar syntax: literal path, *, **, ?, [abc], [a-c], [^a]/[!a], {a,b} on file names / directories / extensions, nested {a,{b,c}}, empty alternative {,x}, backslash escapes, leading ./, trailing /, combinations; file names with spaces, non-ASCII and glob meta characters; each derived from a project file to match it or to miss it narrowly, classified by a scanner of the glob text; invalid globs (unbalanced [ or {, dangling escape; decided by doublestar.ValidatePattern) only in the fatal family. Fatal family: missing file, invalid -ignore regexp, invalid regexp / glob / YAML in config, missing -config-file, no repository, unknown or malformed flags. Non-trivial = run in which the filter removes at least one diagnostic, or a fatal scenario."
+	r.Rule = "scratch repositories (.git marker, 2-7 workflows in .github/workflows and nested sub-directories carrying diagnostics of ~15 kinds with random identifiers, optional base config) linted by the real CLI binary in child processes; per repository one unfiltered baseline and 6 filter sets (none / -ignore / `paths` ignore / both / everything filtered / random) x 8 (cwd, spelling) pairs out of {root, parent, nested, .github/workflows, .github, unrelated} x {relative, ./, absolute, unclean relative, no arguments}, all files / one file / permuted subset, JSON or -oneline output; expected = baseline minus messages matched by Go regexp under globs matched by doublestar against the root-relative path. Patterns: derived from the observed messages (word, quoted token, anchored prefix/suffix/full, alternation, case-insensitive) and static ones matching nothing / everything / kind names / path-like text. Lists of interacting patterns (inline flags (?i) (?s) (?U) (?m) in a non-last pattern followed by a pattern matching only under that flag, (?i:...) groups, (?-i), anchors in every pattern, alternations and empty alternatives inside a pattern, empty patterns, equal group names) in -ignore and in config ignore lists; the reference compiles each pattern alone. Repository layouts: .git directory; .git regular FILE (linked worktree); .git file (submodule) or .git directory nested in vendor/ of an outer ordinary clone that has its own different (sometimes broken) configuration, additionally linted from the outer root; the repository of a file is the nearest ancestor with .github/workflows and a .git entry. `paths` globs cover the doublestar syntax: literal path, *, **, ?, [abc], [a-c], [^a]/[!a], {a,b} on file names / directories / extensions, nested {a,{b,c}}, empty alternative {,x}, backslash escapes, leading ./, trailing /, combinations; file names with spaces, non-ASCII and glob meta characters; each derived from a project file to match it or to miss it narrowly, classified by a scanner of the glob text; invalid globs (unbalanced [ or {, dangling escape; decided by doublestar.ValidatePattern) only in the fatal family. Symbolic links: the repository reached through a link to its root or to its parent directory (relative / absolute spelling, cwd outside and inside the link with PWD spelled through the link), .github or .github/workflows being a link to a directory elsewhere, workflow files that are links to other workflows or to files outside; the glob applies to the path relative to the root as reached. Input from stdin (`-`) with -stdin-filename naming an existing file of the repository (the repository's configuration applies to that name), a file outside any repository, a missing file, or without a name (no configuration applies; only -ignore). `ignore` elements and whole lists written as YAML aliases. Fatal family: missing file, invalid -ignore regexp, invalid regexp / glob / YAML in config, missing -config-file, no repository, unknown or malformed flags. Non-trivial = run in which the filter removes at least one diagnostic, or a fatal scenario."
 	r.Assume("diagnostics of one workflow file do not depend on the other files of the run (no local actions / reusable workflows are generated), so the unfiltered list of any file subset is the concatenation of the per-file baselines in command line order")
 	r.Assume("Go regexp and doublestar.Match (the documented matchers) define 'matches'; shellcheck and pyflakes are disabled with -shellcheck= -pyflakes=")
 	r.Assume("which configuration file applies is not examined: -config-file is only used when the repository has no .github/actionlint.y(a)ml; stdin input and several repositories in one run are excluded (C10)")
@@ -1012,6 +1268,14 @@ func runC15(r *Run) {
 			}
 			need(r.SetHas("layout_x_cwd", ln+"/"+c15CwdNames[cw]), "layout "+ln+" never linted from cwd "+c15CwdNames[cw])
 		}
+	}
+	for _, k := range []string{"runs_config_decides_reach_direct", "runs_config_decides_reach_symlink-to-repository-root", "runs_config_decides_reach_symlink-to-parent-of-repository-root",
+		"runs_config_decides_cwd_inside_symlinked_repository", "runs_config_decides_cwd_inside_symlinked_dot_github_or_workflows",
+		"runs_config_decides_dirlink_1", "runs_config_decides_dirlink_2", "runs_config_decides_with_symlinked_workflow_file",
+		"runs_config_decides_stdin-filename-in-repository", "runs_stdin-filename-outside-any-repository", "runs_stdin-filename-of-missing-file", "runs_stdin-without-filename",
+		"runs_stdin_without_repository_but_repository_config_present",
+		"runs_discriminating_alias_element_value_vs_anchor_name", "runs_config_decides_with_aliased_ignore_list"} {
+		need(r.Counter(k) >= int64(r.Q(3, 40)), fmt.Sprintf("coverage counter %s = %d, need %d", k, r.Counter(k), r.Q(3, 40)))
 	}
 	nGlob := int64(r.Q(3, 40))
 	for _, syn := range c15GlobSyntax {
